@@ -148,7 +148,7 @@ func (f *Fam) other(client string) string {
 
 func (f *Fam) authBy(owner, by string) Auth {
 	switch by {
-	case "owner":
+	case "owner", "owner-forged":
 		return f.W.AuthFor(owner)
 	case "other":
 		return f.W.AuthFor(f.other(owner))
@@ -610,8 +610,23 @@ func (f *Fam) applyRevoke(op Op) string {
 	if !f.quiet {
 		before = w.StateKey()
 	}
-	o := w.Revoke(t.Val, op.Hint, f.authBy(g.Client, op.By))
+	presented := t.Val
+	if op.By == "owner-forged" {
+		presented = famForge(t.Val)
+	}
+	o := w.Revoke(presented, op.Hint, f.authBy(g.Client, op.By))
 	goErr := o.RevokeClass() // the endpoint's answer, not the library-level error
+	if op.By == "owner-forged" {
+		// a string this server never issued (same signature part, other content): an unknown token, answered with
+		// success, changing nothing
+		cls := "revoke:" + op.By + ":" + t.Status + ":" + goErr
+		if !f.quiet && w.StateKey() != before {
+			f.violate("C08", "C08/forged-token-revoked-the-grant/"+t.Kind+"/status="+t.Status, "the owner presented a string the server never issued (the signature part of "+t.Name+" with altered content) to the revocation endpoint and stored token state changed", "unknown token: success, nothing changes", o)
+		}
+		// also while replaying a prefix: should the implementation have revoked something, the model follows it
+		f.resync(func(x *MTok) bool { return x.Grant == g.ID })
+		return cls
+	}
 	cls := "revoke:" + op.By + ":" + t.Status + ":" + goErr
 	live, nearExp := f.expLive(t)
 	unchanged := func(tag string) {
@@ -940,4 +955,28 @@ func famSearch(r *Run, specs []FamSpec) {
 	if completed < maxDepth {
 		r.Exhaustive = false
 	}
+}
+
+// famForge: a token string with the genuine signature part and other content (opaque: another random part;
+// JWT: another payload). The revocation and lookup paths key on the signature part alone.
+func famForge(tok string) string {
+	parts := strings.Split(tok, ".")
+	switch len(parts) {
+	case 2:
+		pfx, key, sig := c06Split2(tok)
+		if len(key) > 8 {
+			alt := []byte(key)
+			for i := 0; i < 8; i++ {
+				if alt[i] == 'A' {
+					alt[i] = 'B'
+				} else {
+					alt[i] = 'A'
+				}
+			}
+			return pfx + string(alt) + "." + sig
+		}
+	case 3:
+		return parts[0] + "." + b64([]byte(`{"sub":"forged"}`)) + "." + parts[2]
+	}
+	return tok + "x"
 }
